@@ -161,7 +161,7 @@ impl GitVcs {
         // Process each commit in topological order
         for commit_hash in commits {
             // Get all tags pointing to this commit (reusing existing function)
-            let tags = self.get_all_tags_from_commit_hash(&commit_hash);
+            let tags = self.get_all_tags_from_commit_hash(&commit_hash)?;
 
             // If no tags, continue to next commit
             if tags.is_empty() {
@@ -187,15 +187,14 @@ impl GitVcs {
     }
 
     /// Get all tags pointing to a commit hash
-    fn get_all_tags_from_commit_hash(&self, commit_hash: &str) -> Vec<String> {
-        match self.run_git_command(&["tag", "--points-at", commit_hash]) {
-            Ok(tags_output) => tags_output
-                .lines()
-                .map(|line| line.trim().to_string())
-                .filter(|tag| !tag.is_empty())
-                .collect(),
-            Err(_) => Vec::new(), // Return empty vector if no tags found
-        }
+    fn get_all_tags_from_commit_hash(&self, commit_hash: &str) -> Result<Vec<String>> {
+        // No tag on the commit is an empty answer, not a failure
+        let tags_output = self.run_git_command(&["tag", "--points-at", commit_hash])?;
+        Ok(tags_output
+            .lines()
+            .map(|line| line.trim().to_string())
+            .filter(|tag| !tag.is_empty())
+            .collect())
     }
 
     fn calculate_distance(&self, tag: &str) -> Result<u32> {
@@ -212,10 +211,11 @@ impl GitVcs {
 
     /// Get current branch name
     fn get_current_branch(&self) -> Result<Option<String>> {
-        match self.run_git_command(&["branch", "--show-current"]) {
-            Ok(branch) if !branch.is_empty() => Ok(Some(branch)),
-            Ok(_) => Ok(None), // Detached HEAD
-            Err(_) => Ok(None),
+        let branch = self.run_git_command(&["branch", "--show-current"])?;
+        if branch.is_empty() {
+            Ok(None) // Detached HEAD
+        } else {
+            Ok(Some(branch))
         }
     }
 
@@ -231,22 +231,23 @@ impl GitVcs {
     fn get_tag_timestamp(&self, tag: &str) -> Result<Option<i64>> {
         // Get the commit date for both annotated and lightweight tags
         // Using ^{commit} to dereference the tag to the commit it points to
-        match self.run_git_command(&["show", "-s", "--format=%ct", &format!("{}^{{commit}}", tag)])
-        {
-            Ok(timestamp) => timestamp.parse::<i64>().map(Some).map_err(|e| {
-                ZervError::CommandFailed(format!("Failed to parse tag timestamp: {e}"))
-            }),
-            Err(_) => Ok(None),
-        }
+        let timestamp =
+            self.run_git_command(&["show", "-s", "--format=%ct", &format!("{}^{{commit}}", tag)])?;
+        timestamp
+            .parse::<i64>()
+            .map(Some)
+            .map_err(|e| ZervError::CommandFailed(format!("Failed to parse tag timestamp: {e}")))
     }
 
     /// Get the commit hash that a tag points to
     fn get_tag_commit_hash(&self, tag: &str) -> Result<Option<String>> {
         // Use `git rev-list -n 1` to get the commit hash that the tag points to
         // This works for both annotated and lightweight tags
-        match self.run_git_command(&["rev-list", "-n", "1", tag]) {
-            Ok(hash) if !hash.trim().is_empty() => Ok(Some(hash.trim().to_string())),
-            Ok(_) | Err(_) => Ok(None),
+        let hash = self.run_git_command(&["rev-list", "-n", "1", tag])?;
+        if hash.trim().is_empty() {
+            Ok(None)
+        } else {
+            Ok(Some(hash.trim().to_string()))
         }
     }
 
@@ -279,16 +280,17 @@ impl Vcs for GitVcs {
             commit_hash_prefix: "g".to_string(), // Git prefix following git describe convention
             commit_timestamp: self.get_commit_timestamp()?,
             is_dirty: self.is_dirty()?,
-            current_branch: self.get_current_branch().unwrap_or(None),
+            current_branch: self.get_current_branch()?,
             ..Default::default()
         };
 
         match self.get_latest_tag(input_format)? {
             Some(tag) => {
                 tracing::debug!("Found Git tag: {}", tag);
-                data.distance = self.calculate_distance(&tag).unwrap_or(0);
-                data.tag_timestamp = self.get_tag_timestamp(&tag).unwrap_or(None);
-                data.tag_commit_hash = self.get_tag_commit_hash(&tag).unwrap_or(None);
+                // A failing query must not turn into "distance 0" or a missing value: that would be a different version
+                data.distance = self.calculate_distance(&tag)?;
+                data.tag_timestamp = self.get_tag_timestamp(&tag)?;
+                data.tag_commit_hash = self.get_tag_commit_hash(&tag)?;
                 data.tag_version = Some(tag);
             }
             None => {
